@@ -8,11 +8,11 @@ namespace Petl.Snapshot
 open Petl.Gen
 
 def expectedC20 : List (String × String) := [
-  ("file:comparison.py", "17971f67ee946013"),
+  ("file:comparison.py", "c46d05a1308c92ce"),
   ("file:config.py", "142bde514c82c29d"),
   ("file:transform/basics.py", "ef1ded632cafe787"),
   ("file:transform/conversions.py", "c717da0d8eb0ba94"),
-  ("file:transform/dedup.py", "00c85272c501507a"),
+  ("file:transform/dedup.py", "bd5f47cbc6d0c73d"),
   ("file:transform/fills.py", "dd9addc453365c1c"),
   ("file:transform/hashjoins.py", "b948265980fadaea"),
   ("file:transform/headers.py", "b170f0cc5a1c0354"),
